@@ -92,3 +92,18 @@ pub assume_specification[usize::next_power_of_two](n: usize) -> (r: usize)
 // verifier-side indexing into prover-supplied vectors: an out-of-range index panics (= diverges)
 #[verifier::external_body] pub fn at<T>(v: &Vec<T>, i: usize) -> (r: &T) ensures i < v@.len(), *r == v@[i as int] { unimplemented!() }
 #[verifier::external_body] pub fn at_fr(v: &Vec<Fr>, i: usize) -> (r: Fr) ensures i < v@.len(), r == v@[i as int] { unimplemented!() }
+// alloc::collections::BTreeSet, used only through the operations given here
+#[verifier::external_body] #[verifier::reject_recursive_types(K)]
+pub struct BTreeSet<K> { _k: core::marker::PhantomData<K> }
+impl<K> View for BTreeSet<K> { type V = Set<K>; uninterp spec fn view(&self) -> Set<K>; }
+// `for x in &set`: the elements, each once (in key order; the order is not exposed)
+#[verifier::external_body] pub fn btree_set_to_vec<K>(s: &BTreeSet<K>) -> (r: Vec<&K>)
+    ensures forall|i: int| 0 <= i < r@.len() ==> s@.contains(*(#[trigger] r@[i])), forall|k: K| s@.contains(k) ==> exists|i: int| 0 <= i < r@.len() && *(#[trigger] r@[i]) == k,
+            forall|i: int, j: int| 0 <= i < j < r@.len() ==> *r@[i] != *r@[j] { unimplemented!() }
+// `BTreeMap::from_iter(pairs)`: later pairs overwrite earlier ones with the same key
+#[verifier::external_body] pub fn btree_from_pairs<K, V>(v: Vec<(K, V)>) -> (r: BTreeMap<K, V>)
+    ensures forall|k: K| r@.dom().contains(k) == (exists|i: int| 0 <= i < v@.len() && (#[trigger] v@[i]).0 == k),
+            forall|i: int| 0 <= i < v@.len() && (forall|j: int| i < j < v@.len() ==> v@[j].0 != v@[i].0) ==> r@[(#[trigger] v@[i]).0] == v@[i].1 { unimplemented!() }
+impl<K, V> BTreeMap<K, V> {
+    #[verifier::external_body] pub fn get(&self, k: &K) -> (r: Option<&V>) ensures (r is Some) == self@.dom().contains(*k), r is Some ==> *r->Some_0 == self@[*k] { unimplemented!() }
+}
